@@ -335,6 +335,70 @@ def check(ctx):
     _predictor_walker(ctx)
 
 
+def _module_scope_rebinds(tree, name):
+    """number of bindings of ``name`` in the module's own scope (function and class bodies are other scopes)"""
+    cnt, todo = 0, [tree]
+    while todo:
+        for ch in ast.iter_child_nodes(todo.pop()):
+            if isinstance(ch, FuncTypes + (ast.ClassDef,)):
+                cnt += ch.name == name
+                continue
+            if isinstance(ch, ast.Lambda):
+                continue
+            if isinstance(ch, ast.Name) and ch.id == name and isinstance(ch.ctx, (ast.Store, ast.Del)):
+                cnt += 1
+            elif isinstance(ch, (ast.Import, ast.ImportFrom)):
+                cnt += sum(1 for al in ch.names if al.name == "*" or (al.asname or al.name.split(".")[0]) == name)
+            elif isinstance(ch, (ast.ExceptHandler, ast.MatchAs, ast.MatchStar)) and ch.name == name:
+                cnt += 1
+            elif isinstance(ch, ast.MatchMapping) and ch.rest == name:
+                cnt += 1
+            todo.append(ch)
+    return cnt
+
+
+def _fixed_int(ctx, mod, defs, e, outside=None, depth=4):
+    """The integer ``e`` always evaluates to, or None when that cannot be established.
+
+    A literal; a local bound exactly once (a plain assignment, not inside ``outside``) to such a value; or a
+    module-level name bound exactly once in its module to such a value, never declared global/nonlocal in a function
+    of the module and never stored to as an attribute / by setattr of that name / through a ``globals()`` item anywhere in the
+    package (so nothing can give it another value at run time)."""
+    if depth <= 0:
+        return None
+    v = const_value(e, None)
+    if isinstance(v, int) and not isinstance(v, bool):
+        return v
+    if isinstance(e, ast.UnaryOp) and isinstance(e.op, (ast.USub, ast.UAdd)):
+        v = _fixed_int(ctx, mod, defs, e.operand, outside, depth - 1)
+        return None if v is None else (-v if isinstance(e.op, ast.USub) else v)
+    if not isinstance(e, ast.Name):
+        return None
+    ds = defs.get(e.id, []) if defs is not None else []
+    if ds:  # a local (or a parameter: never fixed)
+        if len(ds) != 1 or ds[0].kind != "assign" or ds[0].value is None or (outside is not None and lexically_inside(ds[0].stmt, outside)):
+            return None
+        return _fixed_int(ctx, mod, defs, ds[0].value, outside, depth - 1)
+    asg = mod.assigns.get(e.id, [])
+    if len(asg) != 1 or _module_scope_rebinds(mod.tree, e.id) != 1 or getattr(asg[0], "value", None) is None:
+        return None
+    if isinstance(asg[0], ast.Assign) and not (len(asg[0].targets) == 1 and isinstance(asg[0].targets[0], ast.Name)):
+        return None
+    if any(isinstance(n, (ast.Global, ast.Nonlocal)) and e.id in n.names for n in ast.walk(mod.tree)):
+        return None
+    for m in ctx.repo.modules("xonsh", containing=e.id):
+        if e.id not in m.src:
+            continue
+        for n in ast.walk(m.tree):
+            if isinstance(n, ast.Attribute) and n.attr == e.id and isinstance(n.ctx, (ast.Store, ast.Del)):
+                return None
+            if isinstance(n, ast.Call) and call_name(n) in ("setattr", "delattr") and len(n.args) >= 2 and const_value(n.args[1], None) == e.id:
+                return None
+            if isinstance(n, ast.Subscript) and isinstance(n.ctx, (ast.Store, ast.Del)) and const_value(n.slice, None) == e.id:
+                return None
+    return _fixed_int(ctx, mod, None, asg[0].value, None, depth - 1)
+
+
 def _predictor_walker(ctx):
     CCF = "xonsh/commands_cache.py"
     cm = ctx.repo.module(CCF)
@@ -361,7 +425,9 @@ def _predictor_walker(ctx):
         for n in ast.walk(w):
             if isinstance(n, ast.AugAssign) and isinstance(n.op, ast.Sub) and const_value(n.value, None) == 1 and isinstance(n.target, ast.Name):
                 ds = [d for d in defs.get(n.target.id, []) if d.kind == "assign"]
-                init_ok = len(ds) == 1 and isinstance(const_value(ds[0].value, None), int) and const_value(ds[0].value, 0) > 0 and not lexically_inside(ds[0].stmt, w)
+                # the start value: a positive integer literal, or a name that can only ever hold one (a once-bound local / module-level constant)
+                start = _fixed_int(ctx, cm, defs, ds[0].value, outside=w) if len(ds) == 1 else None
+                init_ok = start is not None and start > 0 and not lexically_inside(ds[0].stmt, w)
                 nd = cfg.nodes_of(n)
                 every_iter = bool(nd) and not [x for x in walk_local(w) if isinstance(x, ast.Continue)]  # no way round the decrement to the next iteration
                 exits = [i for i in ast.walk(w) if isinstance(i, ast.If) and n.target.id in unparse(i.test) and any(isinstance(b, (ast.Return, ast.Break, ast.Raise)) for b in i.body)] or ([w] if n.target.id in unparse(w.test) else [])
